@@ -593,6 +593,34 @@ static void elemBushing(Src& c) {
     }
 }
 
+// ================================================================================================ DiscreteForces
+// "applies exactly what was set": a body spatial force, a force at a body point and a mobility force are written into the
+// State; the contribution must be exactly these (model: identity on the set values + applyForceToBodyPoint).
+static void elemDiscrete(Src& c) {
+    Vec3 m = c.vec(-5, 5), f = c.vec(-5, 5), st = c.vec(-1, 1), fp = c.vec(-5, 5); double fm = c.real(-5, 5);
+    std::unique_ptr<Rig> g(new Rig());
+    Transform X;
+    if (c.replay) { X = getPose(c); vh::Rng local(5); g->freeBodies(local, 1); }
+    else g->randomTree(*c.rng, 1 + c.rng->below(3));
+    int b = (int)g->body.size() - 1;
+    Force::DiscreteForces df(g->forces, g->matter);
+    g->topo();
+    if (c.replay) g->body[1].setQToFitTransform(g->s, X); else g->randomState(*c.rng);
+    g->sys.realize(g->s, Stage::Position);
+    df.setOneBodyForce(g->s, g->body[b], SpatialVec(m, f));
+    df.addForceToBodyPoint(g->s, g->body[b], st, fp);
+    df.setOneMobilityForce(g->s, g->body[b], MobilizerUIndex(0), fm);
+    g->sys.realize(g->s, Stage::Velocity);
+    if (!c.replay) putPose(c.rec, g->body[b].getBodyTransform(g->s));
+    Contribution k = contrib(*g, df, g->s);
+    emitRecord("discrete", c, gOrig);
+    vh::Line L = vh::O("discrete"); outSpatial(L, k.F[b]); L.d(g->body[b].getOneFromUPartition(g->s, MobilizerUIndex(0), k.mob)).d(k.pe); L.emit();
+    vh::D("discrete");
+    double other = 0; for (int i = 0; i < (int)k.F.size(); ++i) if (i != b) other += maxabs(k.F[i][0]) + maxabs(k.F[i][1]);
+    vh::P("only_this_body", "DiscreteForces.only_this_body", other, 0);
+    if (wantC12()) c12Lines("DiscreteForces", *g, df, g->s, k, false, false, false, 1);
+}
+
 // ================================================================================================ dispatch
 // CONTACT-BEGIN
 // ================================================================================================ compliant contact (C37)
@@ -1075,8 +1103,8 @@ static void elemEF(Src& c) {
     double vt = c.val(c.replay ? 0 : (c.rng->coin() ? 0.01 : c.rng->range(0.005, 0.3)));
     double radius = c.real(0.3, 1.0);
     int res = c.ival(c.replay ? 0 : 1 + c.rng->below(2));
-    Mat5 m = drawMat(c); if (!c.replay) { /* stiffness per area */ }
-    int otherKind = c.ival(c.replay ? 0 : c.rng->below(2));      // 0 half space on Ground, 1 sphere on body 2
+    Mat5 m = drawMat(c), m2 = drawMat(c);
+    int otherKind = c.ival(c.replay ? 0 : c.rng->below(3));      // 0 half space on Ground, 1 sphere on body 2, 2 second mesh on body 2
     double r2 = c.real(0.3, 1.0);
     Transform Xhalf; 
     if (c.replay) Xhalf = getPose(c); else { Xhalf = Transform(randRot(*c.rng), randVec(*c.rng, 1)); putPose(c.rec, Xhalf); }
@@ -1108,44 +1136,60 @@ static void elemEF(Src& c) {
     GeneralContactSubsystem contacts(g->sys); ContactSetIndex set = contacts.createContactSet();
     ElasticFoundationForce ef(g->forces, contacts, set); ef.setTransitionVelocity(vt);
     ContactGeometry::TriangleMesh mesh(PolygonalMesh::createSphereMesh(radius, res));
+    ContactGeometry::TriangleMesh meshB(PolygonalMesh::createSphereMesh(r2, res));
     contacts.addBody(set, g->body[1], mesh, XBS1);                      // surface 0
-    ContactGeometry other = otherKind == 0 ? (ContactGeometry)ContactGeometry::HalfSpace() : (ContactGeometry)ContactGeometry::Sphere(r2);
+    ContactGeometry other = otherKind == 0 ? (ContactGeometry)ContactGeometry::HalfSpace()
+                          : otherKind == 1 ? (ContactGeometry)ContactGeometry::Sphere(r2) : (ContactGeometry)meshB;
     int bOther = otherKind == 0 ? 0 : 2;
     Transform XBo = otherKind == 0 ? Xhalf : XBS2;
     contacts.addBody(set, g->body[bOther], other, XBo);                 // surface 1
     ef.setBodyParameters(ContactSurfaceIndex(0), m.k, m.c, m.us, m.ud, m.uv);
+    if (otherKind == 2) ef.setBodyParameters(ContactSurfaceIndex(1), m2.k, m2.c, m2.us, m2.ud, m2.uv);
     g->topo(); g->fit(X, V);
     g->sys.realize(g->s, Stage::Dynamics);
     Contribution k = contrib(*g, ef, g->s);
-    // re-derive the displaced springs
-    std::ostringstream sp; int ns = 0;
+    // re-derive the displaced springs: group 0 = springs of the mesh on body 1 against the other object; group 1 (mesh-mesh
+    // only) = springs of the second mesh against the first; with two meshes every spring area is scaled by 1/2
     const Array_<Contact>& cs = contacts.getContacts(g->s, set);
     Transform t1g = g->body[1].getBodyTransform(g->s) * XBS1, t2g = g->body[bOther].getBodyTransform(g->s) * XBo;
-    Transform t12 = ~t2g * t1g;
+    const int ngroups = otherKind == 2 ? 2 : 1; const double areaScale = otherKind == 2 ? 0.5 : 1.0;
+    std::ostringstream sp[2]; int nsG[2] = {0, 0}; int ns = 0; double vslipMax = 0;
     for (int i = 0; i < (int)cs.size(); ++i) {
         if (!TriangleMeshContact::isInstance(cs[i])) continue;
         const TriangleMeshContact& tc = TriangleMeshContact::getAs(cs[i]);
-        const std::set<int>& faces = (tc.getSurface1() == 0) ? tc.getSurface1Faces() : tc.getSurface2Faces();
-        for (int face : faces) {
-            Vec3 pos = (mesh.getVertexPosition(mesh.getFaceVertex(face, 0)) + mesh.getVertexPosition(mesh.getFaceVertex(face, 1)) + mesh.getVertexPosition(mesh.getFaceVertex(face, 2))) / 3;
-            bool inside; UnitVec3 nrm;
-            Vec3 np = other.findNearestPoint(t12 * pos, inside, nrm);
-            if (!inside) continue;
-            sp << ' ' << hex(mesh.getFaceArea(face)); putVec(sp, t2g * np); putVec(sp, t1g * pos); ++ns;
+        for (int grp = 0; grp < ngroups; ++grp) {
+            const ContactGeometry::TriangleMesh& me = grp == 0 ? mesh : meshB;
+            const ContactGeometry& ot = grp == 0 ? other : (const ContactGeometry&)mesh;
+            const Transform& tmg = grp == 0 ? t1g : t2g; const Transform& tog = grp == 0 ? t2g : t1g;
+            int mySurf = grp == 0 ? 0 : 1;
+            const std::set<int>& faces = (tc.getSurface1() == mySurf) ? tc.getSurface1Faces() : tc.getSurface2Faces();
+            Transform tmo = ~tog * tmg;
+            for (int face : faces) {
+                Vec3 pos = (me.getVertexPosition(me.getFaceVertex(face, 0)) + me.getVertexPosition(me.getFaceVertex(face, 1)) + me.getVertexPosition(me.getFaceVertex(face, 2))) / 3;
+                bool inside; UnitVec3 nrm;
+                Vec3 np = ot.findNearestPoint(tmo * pos, inside, nrm);
+                if (!inside) continue;
+                Vec3 npG = tog * np;
+                sp[grp] << ' ' << hex(areaScale * me.getFaceArea(face)); putVec(sp[grp], npG); putVec(sp[grp], tmg * pos); ++nsG[grp]; ++ns;
+                Vec3 va = g->body[1].findStationVelocityInGround(g->s, g->body[1].findStationAtGroundPoint(g->s, npG));
+                Vec3 vb = g->body[bOther].findStationVelocityInGround(g->s, g->body[bOther].findStationAtGroundPoint(g->s, npG));
+                vslipMax = std::max(vslipMax, (va - vb).norm());
+            }
         }
     }
     std::string recArgs;
     if (!c.replay) {
         std::string sceneStr = c.rec.str();
         int ntok = 0; { std::istringstream is(sceneStr); std::string t; while (is >> t) ++ntok; }
-        std::ostringstream os; os << ' ' << ntok << sceneStr << ' ' << hex(vt); putMat(os, m);
+        std::ostringstream os; os << ' ' << ntok << sceneStr << ' ' << hex(vt);
         os << ' ' << bOther;
         putPose(os, g->body[1].getBodyTransform(g->s)); putVel(os, g->body[1].getBodyVelocity(g->s));
         putPose(os, g->body[bOther].getBodyTransform(g->s)); putVel(os, g->body[bOther].getBodyVelocity(g->s));
-        os << ' ' << ns << sp.str();
+        os << ' ' << ngroups;
+        for (int grp = 0; grp < ngroups; ++grp) { os << ' ' << grp; putMat(os, grp == 0 ? m : m2); os << ' ' << nsG[grp] << sp[grp].str(); }
         recArgs = os.str();
     }
-    const bool efDamped = m.c != 0 || m.us != 0 || m.ud != 0 || m.uv != 0;
+    const bool efDamped = m.c != 0 || m.us != 0 || m.ud != 0 || m.uv != 0 || (otherKind == 2 && (m2.c != 0 || m2.us != 0 || m2.ud != 0 || m2.uv != 0));
     const double efScale = k.F[1][1].norm() * (V[1][1].norm() + V[2][1].norm() + V[1][0].norm() + V[2][0].norm() + 1) + std::abs(k.pe);
     if (gDissOnly) {
         double diss = c12Lines("ElasticFoundationForce", *g, ef, g->s, k, true, efDamped, false, efScale);
@@ -1154,7 +1198,16 @@ static void elemEF(Src& c) {
     }
     if (c.replay) std::puts(gOrig.c_str()); else std::printf("I ef%s\n", recArgs.c_str());
     vh::Line L = vh::O("ef"); outSpatial(L, k.F[1]); outSpatial(L, k.F[bOther]); L.d(k.pe); L.emit();
-    vh::D(std::string("ef.") + (otherKind == 0 ? "halfspace" : "sphere") + (ns == 0 ? ".nosprings" : ns < 5 ? ".few" : ".many"));
+    vh::D(std::string("ef.") + (otherKind == 0 ? "halfspace" : otherKind == 1 ? "sphere" : "meshmesh") + (ns == 0 ? ".nosprings" : ns < 5 ? ".few" : ".many"));
+    if (wantC37() && otherKind == 0 && ns > 0) {
+        // implementation-side contact predicates on the resultant (all springs of a half-space contact push along the half
+        // space's outward normal): non-attractive, tangential part bounded by (us + uv*max slip) * N
+        Vec3 nOut = -(t2g.R() * Vec3(1, 0, 0));
+        Vec3 F1 = k.F[1][1]; double N = dot(F1, nOut); Vec3 Ft = F1 - N * nOut; double scl = std::max(1.0, F1.norm());
+        vh::P("normal_nonattractive", "ElasticFoundationForce.normal_nonattractive", -N, 1e-10 * scl);
+        vh::P("friction_le_limit", "ElasticFoundationForce.friction_le_limit", Ft.norm() - (m.us + m.uv * vslipMax) * N, 1e-9 * scl);
+        if (m.us == 0 && m.ud == 0 && m.uv == 0) vh::P("frictionless_normal_only", "ElasticFoundationForce.frictionless", Ft.norm(), 1e-10 * scl);
+    }
     if (wantC13()) thirdLaw("ElasticFoundationForce", *g, g->s, k.F);
     if (wantC12()) {
         double diss = c12Lines("ElasticFoundationForce", *g, ef, g->s, k, true, efDamped, false, efScale);
@@ -1465,6 +1518,7 @@ static void runOne(const std::string& fn, Src& c, bool degenerate = false) {
     else if (fn == "uniformGravity") elemGravity(c, true);
     else if (fn == "gravity") elemGravity(c, false);
     else if (fn == "bushing") elemBushing(c);
+    else if (fn == "discrete") elemDiscrete(c);
     else if (!runContact(fn, c, degenerate)) { std::puts(gOrig.c_str()); std::printf("O %s UNSUPPORTED\n", fn.c_str()); }
 }
 
@@ -1489,13 +1543,13 @@ int main(int argc, char** argv) {
             return 0;
         }
         static const char* c38elems[] = {"tpSpring", "tpDamper", "tpConst", "constForce", "constTorque", "mobSpring", "mobDamper",
-                                         "mobConst", "mobDiscrete", "mobStop", "globalDamper", "uniformGravity", "gravity", "bushing", "cable"};
+                                         "mobConst", "mobDiscrete", "mobStop", "globalDamper", "uniformGravity", "gravity", "bushing", "cable", "discrete"};
         static const char* c13elems[] = {"tpSpring", "tpDamper", "tpConst", "bushing"};
         long N = a.n;
         if (MODE == "c38deg" || MODE == "c37deg") N = std::max(30L, a.n / 6);
         for (long i = 0; i < N; ++i) {
             Src c; c.rng = &rng;
-            if (MODE == "" || MODE == "c38" || MODE == "c12") runOne(c38elems[i % 15], c);
+            if (MODE == "" || MODE == "c38" || MODE == "c12") runOne(c38elems[i % 16], c);
             else if (MODE == "c38deg") runOne(c13elems[i % 3], c, true);
             else if (MODE == "c13") runOne(c13elems[i % 4], c);
             else if (MODE == "c38param") runParam(i, c);
